@@ -139,7 +139,7 @@ def run(tier: str, seed: int) -> int:
     failures, diffs = [], []
     known_ids = {f["id"] for f in chk.known}
     stats = {}
-    plan = [("funcs", 50 if tier == "quick" else 3000), ("calls", 60 if tier == "quick" else 3000), ("deep", 50 if tier == "quick" else 3000), ("tco", 60 if tier == "quick" else 3000)]
+    plan = [("funcs", 50 if tier == "quick" else 500), ("calls", 60 if tier == "quick" else 600), ("deep", 50 if tier == "quick" else 500), ("tco", 60 if tier == "quick" else 600)]
     with RaTap() as tap:
         for kind, n in plan:
             for i in range(n):
@@ -171,7 +171,7 @@ def run(tier: str, seed: int) -> int:
                         failures.append({"what": lf + f" [push_pop={pp}, tail_call={tco}]", "src": src, "prog": progen.jprogram(prog), "opts": opts, "pool": pool, "env_seed": 1,
                                          "budget": budget, "expect": exp, "code": res["code"], "static_only": True})
                     stats[f"runs_pp{int(pp)}_tco{int(tco)}"] = stats.get(f"runs_pp{int(pp)}_tco{int(tco)}", 0) + 1
-                    for es in [r.randrange(1 << 30) for _ in range(2 if tier == "quick" else 5)]:
+                    for es in [r.randrange(1 << 30) for _ in range(2 if tier == "quick" else 4)]:
                         v = drv.call(cmd="equiv", prog=progen.jprogram(prog), text=res["code"], seed=es, pool=pool, expect=exp, **budget)
                         if v["verdict"] == "src-undefined":
                             break
@@ -188,7 +188,7 @@ def run(tier: str, seed: int) -> int:
                     if len(chk.coverage["samples"]) < 3 and prog["funcs"]:
                         chk.sample({"profile": kind, "push_pop": pp, "tail_call": tco, "src": src[:400]})
         # name family: a function inlined into another one whose label is a suffix of its own (pre_run inside run), both conventions
-        for i in range(60 if tier == "quick" else 3000):
+        for i in range(60 if tier == "quick" else 600):
             base = r.choice(["run", "tick", "update", "f", "set"])
             inner = r.choice(["pre_" + base, "on_" + base, "re" + base, base + "_more", "other", "x" + base])
             helper = r.choice(["emit", "h", "log_" + base, "z"])
@@ -225,7 +225,7 @@ def run(tier: str, seed: int) -> int:
         # synthetic instruction lists for the add_ra model
         from stationeers_pytrapic.compile_pass import FunctionData, CompileOptions
         from stationeers_pytrapic.types import IC10Instruction, IC10Register
-        n_syn = 400 if tier == "quick" else 20000
+        n_syn = 400 if tier == "quick" else 8000
         for i in range(n_syn):
             name = r.choice(["f", "g.h", "run", "tick"])
             pp = r.random() < 0.5
